@@ -297,16 +297,16 @@ func c32CheckBytes(in []byte) (bool, error) {
 
 func c32GenPayload(t *rapid.T) []byte {
 	var n int
-	switch k := rapid.IntRange(0, 19).Draw(t, "pkind"); {
-	case k < 10:
+	switch k := rapid.IntRange(0, 39).Draw(t, "pkind"); {
+	case k < 20:
 		n = rapid.IntRange(1, 40).Draw(t, "plen")
-	case k < 15:
+	case k < 30:
 		n = rapid.IntRange(120, 135).Draw(t, "plen")
-	case k < 18:
+	case k < 36:
 		n = rapid.IntRange(1, 3000).Draw(t, "plen")
-	case k < 19:
+	case k < 39:
 		n = rapid.IntRange(16380, 16390).Draw(t, "plen")
-	default:
+	default: // 4-byte length (2 MiB), in thorough also the 10 MiB limit itself
 		n = 1 << 21
 		if kit.Thorough() && rapid.Bool().Draw(t, "pmax") {
 			n = c32MaxPayload
